@@ -108,6 +108,16 @@ func newRlSys(r *vrt.Run, c rlCfg) *rlSys {
 		}
 		os.WriteFile(f, []byte("not a backup\n"), 0o600)
 		s.foreign[f] = "not a backup\n"
+		if c.rule == "daily" {
+			// a foreign name that sorts below every date (the daily rule compares names with
+			// the boundary date's): "app.log-0-draft" is nobody's backup either
+			f2 := s.file + c.delim + "0-draft"
+			if c.gzip {
+				f2 += ".gz"
+			}
+			os.WriteFile(f2, []byte("not a backup either\n"), 0o600)
+			s.foreign[f2] = "not a backup either\n"
+		}
 		pre(10 * 24 * time.Hour)
 	}
 	s.open()
